@@ -21,10 +21,10 @@ RULE = ("initial states drawn from merge.tool x diff.guitool in {unset, nbdime, 
         "scopes, bytes of the attributes files and a hash tree of HOME and the repository are compared with the state before. "
         "Refuted by: enable;enable != enable; a key outside nbdime's own set changed/disappeared (diff.guitool / merge.tool only with "
         "--set-default or when they were 'nbdime'); attributes lost/reordered a line or gained anything but one diff and one merge line; "
-        "driver keys still resolve after disable; a file outside {scope config, scope attributes} changed. "
+        "driver keys still resolve after disable; `git check-attr diff merge -- x.ipynb` not routed to jupyternotebook after a driver was enabled; a file outside {scope config, scope attributes} changed. "
         "Non-trivial: a sequence that changes the snapshot at least once from a state with >= 1 foreign setting; distinct by (initial state, sequence).")
 FLOOR = {"quick": 150, "thorough": 3000}
-REQUIRED_MONITORS = ("foreign_keys", "idempotence", "attributes", "disabled", "files")
+REQUIRED_MONITORS = ("foreign_keys", "idempotence", "attributes", "disabled", "enabled", "files")
 ASSUMPTIONS = ["--system scope is not exercised (needs a writable /etc/gitconfig)", "HOME, XDG_CONFIG_HOME isolated; GIT_CONFIG_NOSYSTEM=1",
                "enable overwriting the prompt keys is allowed (the no-prompt defaults those tools set)",
                "jupyter_server / jinja2 are stubbed so that git-nbdifftool / git-nbmergetool / nbdime config-git can be imported"]
@@ -220,6 +220,19 @@ def judge_step(col, w, cmd, before, after, rc, err, wit):
             col.violation("diff-driver-still-configured-after-disable", str(cmd), wit, "disable")
         if tool in ("nbdime config-git", "git-nbmergedriver config") and "merge.jupyternotebook.driver" in a:
             col.violation("merge-driver-still-configured-after-disable", str(cmd), wit, "disable")
+    # enabled => git routes notebooks to the driver (one attributes line per driver must be in effect)
+    if act == "--enable" and rc == 0 and tool in ("nbdime config-git", "git-nbdiffdriver config", "git-nbmergedriver config"):
+        col.mon("enabled")
+        p = w.git("check-attr", "diff", "merge", "--", "x.ipynb", check=False)
+        attrs = {}
+        for line in p.stdout.decode("utf8", "replace").splitlines():
+            parts = line.split(": ")
+            if len(parts) == 3:
+                attrs[parts[1]] = parts[2]
+        if tool in ("nbdime config-git", "git-nbdiffdriver config") and attrs.get("diff") != "jupyternotebook":
+            col.violation("diff-driver-not-routed-after-enable", "%s: git check-attr diff x.ipynb = %r, attributes %r" % (cmd, attrs.get("diff"), aa), wit, "enable")
+        if tool in ("nbdime config-git", "git-nbmergedriver config") and attrs.get("merge") != "jupyternotebook":
+            col.violation("merge-driver-not-routed-after-enable", "%s: git check-attr merge x.ipynb = %r, attributes %r" % (cmd, attrs.get("merge"), aa), wit, "enable")
     # files
     col.mon("files")
     allowed = {os.path.relpath(p, w.root) for p in (os.path.join(w.repo, ".git", "config"), os.path.join(w.home, ".gitconfig"), w.attr_path())}
